@@ -17,6 +17,7 @@ KINDS = ["direct", "Next", "Previous", "Linear", "Step", "Avg", "AvgStep", "Sum"
 # first buffered time again and again while more data arrives), and a delay upstream of the adapter
 DELAYED = ["Next+D", "Linear+D", "Step+D", "Avg+D", "AvgStep+D", "Sum+D", "SumAbs+D", "D+Linear", "direct+D"]
 PAYLOADS = ["scalar", "grid", "masked"]
+MORE_PAYLOADS = ["masked_sometimes"]  # a masked payload whose mask is empty for some publications
 
 
 def mk_adapter(kind):
@@ -38,6 +39,8 @@ def payload(kind, t):
     base = np.arange(6.0).reshape(2, 3) + 10.0 * h + h * h
     if kind == "grid":
         return base
+    if kind == "masked_sometimes":
+        return np.ma.array(base, mask=MASK if int(h) % 2 else np.zeros_like(MASK), fill_value=-1.0)
     return np.ma.array(base, mask=MASK)
 
 
@@ -55,6 +58,8 @@ class Prod(fm.TimeComponent):
             info = fm.Info(time=self.time, grid=fm.NoGrid(), units=self.units)
         elif self.pk == "grid":
             info = fm.Info(time=self.time, grid=GRID, units=self.units)
+        elif self.pk == "masked_sometimes":
+            info = fm.Info(time=self.time, grid=GRID, units=self.units, mask=fm.Mask.FLEX)
         else:
             info = fm.Info(time=self.time, grid=GRID, units=self.units, mask=MASK)
         self.outputs.add(name="o", info=info)
@@ -94,7 +99,8 @@ class Cons(fm.TimeComponent):
 
     def rec(self, t, d):
         m = d.magnitude
-        self.series.append((float(hrs(t)), str(d.units), np.ma.getmaskarray(m).tolist() if np.ma.isMaskedArray(m) else None, np.ma.filled(m, -999.0).tolist() if np.ma.isMaskedArray(m) else np.asarray(m).tolist()))
+        writeable = bool(np.ma.getdata(m).flags.writeable) if hasattr(m, "flags") else True
+        self.series.append((float(hrs(t)), str(d.units) + ("" if writeable else " [read-only]"), np.ma.getmaskarray(m).tolist() if np.ma.isMaskedArray(m) else None, np.ma.filled(m, -999.0).tolist() if np.ma.isMaskedArray(m) else np.asarray(m).tolist()))
 
     def _connect(self, st):
         had = self.connector.in_data.get("i") is not None
@@ -188,7 +194,7 @@ def same_series(a, b):
         if t1 != t2:
             return "times"
         if u1 != u2:
-            return "units"
+            return "units" if u1.replace(" [read-only]", "") != u2.replace(" [read-only]", "") else "writeability"
         if m1 != m2:
             return "mask"
         try:
@@ -258,6 +264,7 @@ def run(tier, seed, agg):
     cases += [dict(kind=k, payload=p, steps=list(s), end=7, nmax=2 if q else 4, via="slot") for k in KINDS for p in PAYLOADS for s in ((1, 1), (1, 2), (3, 2))]
     cases += [dict(kind=k, payload=p, steps=list(s), end=8, nmax=3 if q else 5, via="composition", order=o) for k in DELAYED for p in PAYLOADS for s in ((1, 1), (1, 2), (2, 1), (1, 3), (3, 2)) for o in ("PC", "CP")]
     cases += [dict(kind=k, payload="grid", steps=list(s), end=7, nmax=3, via="composition", order="CP") for k in KINDS for s in ((1, 1), (1, 2), (2, 3))]
+    cases += [dict(kind=k, payload="masked_sometimes", steps=list(s), end=7, nmax=4, via="composition") for k in ("direct", "Next", "Previous", "Linear", "Step", "Avg") for s in ((1, 1), (1, 2), (2, 1), (1, 3))]
     # long runs: dozens of publications and spill files (counters, name collisions, accumulated memory accounting)
     cases += [dict(kind=k, payload=p, steps=list(s), end=45, limits=[0, 47, 48, 100, 500], via="composition") for k in KINDS + ["Linear+D"] for p in ("grid", "masked") for s in ((1, 1), (1, 3), (2, 5), (1, 11))]
     k = seed % len(cases)
